@@ -1,6 +1,6 @@
 (* Facts about the abstract EVM-view machine (Model/EvmAbs.v): the invariant "an account without nonce and
    code has no storage" is preserved by every disciplined operation; list lemmas shared by the two refinements. *)
-From Coq Require Import Lia ZArith List Bool FunctionalExtensionality.
+From Coq Require Import Lia ZArith List Bool.
 From Evm Require Import EvmAbs.
 Import ListNotations.
 Open Scope Z_scope.
@@ -11,11 +11,20 @@ Proof. intros. unfold upd. rewrite Z.eqb_refl. reflexivity. Qed.
 Lemma upd_other : forall {V} (f : Z -> V) a v x, x <> a -> upd f a v x = f x.
 Proof. intros. unfold upd. destruct (x =? a) eqn:E; [apply Z.eqb_eq in E; contradiction|reflexivity]. Qed.
 
+(* Function extensionality is used for the function-valued components of the abstract state (storage, the account
+   map).  It is the standard-library axiom FunctionalExtensionality.functional_extensionality; here it is an explicit
+   hypothesis of every lemma that needs it (Section variable FE), so that the dependency is visible in each statement. *)
+Definition funext_stmt : Prop := forall (A B : Type) (f g : A -> B), (forall x, f x = g x) -> f = g.
+
+Section FE.
+Hypothesis FE : funext_stmt.
+
 Lemma upd_id : forall {V} (f : Z -> V) a, upd f a (f a) = f.
-Proof. intros. apply functional_extensionality. intro x. unfold upd. destruct (x =? a) eqn:E; [apply Z.eqb_eq in E; subst|]; reflexivity. Qed.
+Proof. intros. apply FE. intro x. unfold upd. destruct (x =? a) eqn:E; [apply Z.eqb_eq in E; subst|]; reflexivity. Qed.
 
 Lemma upd_upd : forall {V} (f : Z -> V) a v w, upd (upd f a v) a w = upd f a w.
-Proof. intros. apply functional_extensionality. intro x. unfold upd. destruct (x =? a); reflexivity. Qed.
+Proof. intros. apply FE. intro x. unfold upd. destruct (x =? a); reflexivity. Qed.
+End FE.
 
 Lemma memZ_In' : forall a l, memZ a l = true <-> In a l.
 Proof.
